@@ -24,7 +24,7 @@ var c14Files = []string{
 	"decryptor/mysql/base/utils.go", "decryptor/mysql/data_encoder.go",
 	"decryptor/postgresql/packet_handler.go", "decryptor/postgresql/utils.go", "decryptor/postgresql/data_encoder.go",
 	"pseudonymization/utils.go", "pseudonymization/random.go", "pseudonymization/common/metadata.go", "pseudonymization/data_encoder.go",
-	"utils/dbByteArrayEncoders.go", "utils/utils.go", "logging/log_entry_parser.go",
+	"utils/dbByteArrayEncoders.go", "utils/utils.go", "logging/log_entry_parser.go", "sqlparser/comments.go",
 	"keystore/v2/keystore/signature/notary.go", "keystore/v2/keystore/asn1/asn1.go",
 }
 
@@ -46,6 +46,7 @@ var r141Confirmed = map[string]string{
 	"R14.1|(*decryptor/postgresql.ParsePacket).Name|slice .name[:len(.name)-1]":                      "name always ends with its NUL: NewParsePacket slices data[:idx+1] after bytes.Index found the terminator, so len >= 1",
 	"R14.1|(*decryptor/postgresql.ParsePacket).QueryString|slice .query[:len(.query)-1]":             "query always ends with its NUL: NewParsePacket slices up to and including the terminator, ReplaceQuery appends one, so len >= 1",
 	"R14.1|crypto.DeserializeEncryptedData|make make(len getSerializedContainerLength(encrypted)#0)": "getSerializedContainerLength returns internalLength <= len(encrypted)-12 or an error; every caller has validated len(encrypted) > 12 first (getEnvelopeIDFromData -> validateSerializedContainer); a wrapped length-12 is rejected by the same comparison",
+	"R14.1|sqlparser.ExtractMysqlComment|slice sql[3:len(sql)-2]":                                    "the only caller, Tokenizer.scanMySQLSpecificComment, passes a buffer it has written \"/*!\" and, before leaving its loop, at least the closing '*' and '/' into: len(sql) >= 5 (kept honest by the caller witness of R14.1)",
 	"R14.1|pseudonymization.randomEmail|slice buf[:len(buf)-len(_)]":                                 "guard len(buf) >= 5; below 8 bytes only the 3-byte country TLDs are used, the longest TLD (.info) has 5 bytes: len(tld) <= len(buf)",
 	"R14.1|pseudonymization.randomEmail|slice buf[len(buf)-len(_):]":                                 "same: 0 <= len(buf)-len(tld) <= len(buf)",
 	"R14.1|pseudonymization.randomEmail|index buf[len(buf)-len(_)/2]":                                "same, and len(buf)-len(tld) >= 0 so the middle index is within [0, len(buf))",
@@ -107,6 +108,7 @@ func runC14(p *Program, r *Report) {
 	boundsRuleK(p, r, "R14.1", c14Files, r141Confirmed, true)
 	ruleR141WitnessEmail(p, r)
 	witnessFieldLen(p, r, "R14.1", "decryptor/postgresql.PacketHandler", "descriptionLengthBuf", 4)
+	ruleR141WitnessComment(p, r)
 	r.Rule("R14.3", "E1", 4, "bounded allocation: every make / Buffer.Grow / io.CopyN in the decoders whose size derives from a length field of the input has a finite upper bound that the sender does not control alone: a constant, the length of data already held, or the Len() of the reader it is read from")
 	ruleR143(p, r)
 	r.Rule("R14.4", "E3", 3, "connection isolation: every goroutine that AcraServer starts to serve a client connection runs a function whose first deferred call is recoverConnection (a panic in a decoder ends that connection, not the process)")
@@ -611,6 +613,16 @@ func init() {
 	mut("C14", "length field re-read between its check and its use", "decryptor/postgresql/packet_handler.go", "	// the declared length comes from the other side: reserve a bounded amount up front,\n	// the buffer grows with the data that actually arrives\n	if packet.dataLength > maxPacketPreallocation {", "	packet.setDataLengthBuffer(packet.descriptionLengthBuf)\n	if packet.dataLength > maxPacketPreallocation {", "R14.3", "Grow")
 }
 
+func init() {
+	mut("C14", "version comment: position -1 used as a bound (original defect)", "sqlparser/comments.go", "	if endOfVersionIndex < 0 {\n		// nothing but (fewer than six) version digits, or nothing at all, inside the comment\n		endOfVersionIndex = len(sql)\n	}\n", "", "R14.1", "ExtractMysqlComment")
+	mut("C14", "version comment: not-found replaced by a position past the end", "sqlparser/comments.go", "		endOfVersionIndex = len(sql)\n", "		endOfVersionIndex = len(sql) + 1\n", "R14.1", "ExtractMysqlComment")
+	mut("C14", "handshake capabilities read without the length check (original defect)", "decryptor/mysql/packet.go", "	if len(packet.data) < endOfServerVersion+13+2 {\n		// not a complete handshake (for example an ERR packet sent instead of it)\n		logrus.Debug(\"packet hasn't DB capabilities\")\n		return 0\n	}\n", "", "R14.1", "getServerCapabilities")
+	mut("C14", "Parse message: parameter count read without a length check (original defect)", "decryptor/postgresql/utils.go", "	if len(data) < endIndex+2 {\n		// the message ends before the number of parameter types\n		return nil, ErrPacketTruncated\n	}\n", "", "R14.1", "NewParsePacket")
+	mut("C14", "Parse message: announced parameter types not compared with the message (original defect)", "decryptor/postgresql/utils.go", "			if len(data) < endIndex+4 {\n				// fewer parameter types than announced\n				return nil, ErrPacketTruncated\n			}\n", "", "R14.1", "NewParsePacket")
+	mut("C14", "Parse message: second terminator searched from the start", "decryptor/postgresql/utils.go", "	name := data[:startIndex]\n	// skip terminator of previous field\n	endIndex := bytes.Index(data[startIndex:], terminator)", "	name := data[:startIndex]\n	endIndex := bytes.Index(data, terminator)", "R14.1", "NewParsePacket")
+	mut("C14", "special comment handed over before its closing slash is consumed", "sqlparser/token.go", "			tkn.consumeNext(buffer)\n			if tkn.lastChar == '/' {\n				tkn.consumeNext(buffer)\n				break\n			}\n			continue\n		}\n		if tkn.lastChar == eofChar {\n			return LEX_ERROR, buffer.Bytes()\n		}\n		tkn.consumeNext(buffer)\n	}\n	_, sql := ExtractMysqlComment(", "			if tkn.lastChar == '/' {\n				tkn.consumeNext(buffer)\n				break\n			}\n			continue\n		}\n		if tkn.lastChar == eofChar {\n			return LEX_ERROR, buffer.Bytes()\n		}\n		tkn.consumeNext(buffer)\n	}\n	_, sql := ExtractMysqlComment(", "R14.1", "argument of ExtractMysqlComment")
+}
+
 var r148Confirmed = map[string]string{}
 
 func ruleR148(p *Program, r *Report) {
@@ -661,4 +673,167 @@ func ruleR148(p *Program, r *Report) {
 
 func init() {
 	mut("C14", "JSON log parser asserts the message type without checking", "logging/log_entry_parser.go", "			expectedMessage, ok := parsed[logrus.FieldKeyMsg].(string)\n			if ok && expectedMessage == EndOfAuditLogChainMessage {", "			expectedMessage := parsed[logrus.FieldKeyMsg].(string)\n			if expectedMessage == EndOfAuditLogChainMessage {", "R14.8", "assertion to string")
+}
+
+// ruleR141WitnessComment keeps the reason behind the confirmed ExtractMysqlComment entry true: the function strips
+// "/*!" and "*/" without looking, so every caller must hand it a string that certainly holds those five bytes. A
+// caller qualifies when the argument is the String() of a local buffer into which, on every path to the call, a
+// constant string and single bytes adding up to five or more were written (writes in blocks that dominate the call).
+func ruleR141WitnessComment(p *Program, r *Report) {
+	target := p.Func("sqlparser.ExtractMysqlComment")
+	if target == nil {
+		r.Anchor("R14.1", "sqlparser.ExtractMysqlComment")
+		return
+	}
+	n := 0
+	for fn := range p.allFns {
+		for _, b := range fn.Blocks {
+			for _, in := range b.Instrs {
+				// the function used as a value escapes the caller analysis
+				if _, isCall := in.(ssa.CallInstruction); !isCall {
+					for _, op := range in.Operands(nil) {
+						if *op == ssa.Value(target) {
+							r.Bad("R14.1", fnName(fn), "ExtractMysqlComment taken as a value", p.Pos(in.Pos()), "the callers of ExtractMysqlComment can no longer be enumerated: its unchecked sql[3:len(sql)-2] needs every caller to pass at least five bytes")
+						}
+					}
+					continue
+				}
+				ci := in.(ssa.CallInstruction)
+				if ci.Common().StaticCallee() != target {
+					for _, a := range ci.Common().Args {
+						if a == ssa.Value(target) {
+							r.Bad("R14.1", fnName(fn), "ExtractMysqlComment passed as a value", p.Pos(in.Pos()), "the callers of ExtractMysqlComment can no longer be enumerated")
+						}
+					}
+					continue
+				}
+				n++
+				min, why := commentArgMinLen(p, fn, in, ci.Common().Args[0])
+				r.Check(min >= 5, "R14.1", fnName(fn), "argument of ExtractMysqlComment holds at least 5 bytes", p.Pos(in.Pos()),
+					fmt.Sprintf("at least %d bytes are written into the buffer on every path to the call", min),
+					fmt.Sprintf("only %d bytes are certainly written into the argument before the call (%s): ExtractMysqlComment slices sql[3:len(sql)-2] unchecked and panics on a shorter string", min, why))
+			}
+		}
+	}
+	if n == 0 {
+		r.Anchor("R14.1", "a caller of sqlparser.ExtractMysqlComment")
+	}
+}
+
+// commentArgMinLen: bytes certainly in the string `arg` at a call in block `at`: arg = buf.String() of a local buffer;
+// sums constant WriteString arguments and single-byte writes (WriteByte, or a helper whose every return follows one
+// WriteByte on the buffer passed to it) at call sites whose block dominates `at`.
+func commentArgMinLen(p *Program, fn *ssa.Function, site ssa.Instruction, arg ssa.Value) (int, string) {
+	at := site.Block()
+	before := map[ssa.Instruction]bool{}
+	for _, in := range at.Instrs {
+		if in == site {
+			break
+		}
+		before[in] = true
+	}
+	sc, ok := arg.(*ssa.Call)
+	if !ok || sc.Call.IsInvoke() || sc.Call.StaticCallee() == nil || sc.Call.StaticCallee().Name() != "String" || len(sc.Call.Args) != 1 {
+		return 0, "the argument is not the String() of a local buffer"
+	}
+	buf := sc.Call.Args[0]
+	if _, isAlloc := buf.(*ssa.Alloc); !isAlloc {
+		return 0, "the buffer is not local to the caller"
+	}
+	total := 0
+	for _, b := range fn.Blocks {
+		for _, in := range b.Instrs {
+			c, ok := in.(*ssa.Call)
+			if !ok || c == sc {
+				continue
+			}
+			uses := false
+			for _, a := range c.Call.Args {
+				if a == buf {
+					uses = true
+				}
+			}
+			if !uses {
+				continue
+			}
+			callee := c.Call.StaticCallee()
+			if callee == nil {
+				return 0, "the buffer is passed to a call that cannot be resolved"
+			}
+			dom := (b != at && b.Dominates(at)) || before[in]
+			switch {
+			case callee.Name() == "WriteString" && c.Call.Args[0] == buf:
+				if s, ok := constStringOf(c.Call.Args[1]); ok && dom {
+					total += len(s)
+				}
+			case callee.Name() == "WriteByte" && c.Call.Args[0] == buf:
+				if dom {
+					total++
+				}
+			case callee.Name() == "Write" || callee.Name() == "Bytes" || callee.Name() == "String" || callee.Name() == "Len":
+				// grows or reads the buffer
+			case writesOneByte(callee, c.Call.Args, buf):
+				if dom {
+					total++
+				}
+			default:
+				return 0, "the buffer is passed to " + fnName(callee) + ", which may shorten it"
+			}
+		}
+	}
+	return total, "constant WriteString and single-byte writes in blocks that dominate the call"
+}
+
+// writesOneByte: callee passes the buffer only to WriteByte, and a WriteByte on it lies in a block that every
+// return of callee is dominated by.
+func writesOneByte(callee *ssa.Function, args []ssa.Value, buf ssa.Value) bool {
+	if callee.Blocks == nil {
+		return false
+	}
+	var param *ssa.Parameter
+	for i, a := range args {
+		if a == buf && i < len(callee.Params) {
+			param = callee.Params[i]
+		}
+	}
+	if param == nil {
+		return false
+	}
+	var writes []*ssa.BasicBlock
+	for _, b := range callee.Blocks {
+		for _, in := range b.Instrs {
+			c, ok := in.(*ssa.Call)
+			if !ok {
+				continue
+			}
+			for i, a := range c.Call.Args {
+				if a != ssa.Value(param) {
+					continue
+				}
+				if sc := c.Call.StaticCallee(); sc != nil && sc.Name() == "WriteByte" && i == 0 {
+					writes = append(writes, b)
+				} else {
+					return false
+				}
+			}
+		}
+	}
+	for _, b := range callee.Blocks {
+		if len(b.Instrs) == 0 {
+			continue
+		}
+		if _, isRet := b.Instrs[len(b.Instrs)-1].(*ssa.Return); !isRet {
+			continue
+		}
+		ok := false
+		for _, w := range writes {
+			if w.Dominates(b) {
+				ok = true
+			}
+		}
+		if !ok {
+			return false
+		}
+	}
+	return len(writes) > 0
 }
